@@ -742,6 +742,58 @@ pub const ALL_RULES: &[&str] = &[
     "UnexpectedProtocol", "EmptySubscription", "PropId", "DupProp", "PropNotAllowed", "WillPropNotAllowed", "ByteProp", "PropLen", "PayloadFormat", "RemLen",
 ];
 
+/// A property-level malformation (and its well-formed twin) placed behind a filler property of
+/// *every* length: whatever an implementation keeps per property in a narrow integer or a block-sized
+/// table (offsets, seen-masks, remaining counts) is driven through every value up to 65,535.
+fn c04_prefix_sweep(c: &mut Ctx, w: usize, nw: usize, layer: &str) {
+    let tiny = matches!(layer, "miri" | "vg");
+    let max_l: usize = if tiny { 300 } else { 65_532 };
+    let fam = Fam::V5;
+    let mut k = 0usize;
+    for l in 0..=max_l {
+        // quick: every short filler, every filler that puts the next property at offset 255/0 (mod 256), the last 2600
+        let off = 3 + l;
+        let dense = c.thorough || l < 2048 || l + 2600 > max_l || matches!(off % 256, 255 | 0);
+        if !dense {
+            continue;
+        }
+        k += 1;
+        if k % nw != w {
+            continue;
+        }
+        let filler = (0x1Fu8, PV::Str(vec![b'f'; l]));
+        for variant in 0..5u8 {
+            // 0: well-formed; 1: duplicate (adjacent); 2: duplicate (not adjacent); 3: boolean property = 2; 4: property not allowed here
+            let mut props: Props = vec![filler.clone(), (0x13, PV::U16(10))];
+            match variant {
+                0 => props.push((0x21, PV::U16(5))),
+                1 => props.push((0x13, PV::U16(11))),
+                2 => {
+                    props.push((0x21, PV::U16(5)));
+                    props.push((0x13, PV::U16(11)));
+                }
+                3 => props.push((0x25, PV::Byte(2))),
+                _ => props.push((0x02, PV::U32(1))),
+            }
+            let rp = RP::Connack { sp: false, code: 0, props };
+            let b = ref_encode(fam, &rp, &Spelling::default()).bytes();
+            c04_frame(c, fam, &b, "prefix-sweep");
+        }
+        if l % 7 == 0 {
+            // the same through a user property (two length prefixes) in AUTH and in CONNECT's will
+            let pair = (USER_PROPERTY, PV::Pair(vec![b'k'; l / 2], vec![b'v'; l - l / 2]));
+            let auth = RP::Auth { code: 0x18, props: vec![pair.clone(), (0x15, PV::Str(b"m".to_vec())), (0x15, PV::Str(b"n".to_vec()))] };
+            c04_frame(c, fam, &ref_encode(fam, &auth, &Spelling::default()).bytes(), "prefix-sweep");
+            let auth_ok = RP::Auth { code: 0x18, props: vec![pair.clone(), (0x15, PV::Str(b"m".to_vec()))] };
+            c04_frame(c, fam, &ref_encode(fam, &auth_ok, &Spelling::default()).bytes(), "prefix-sweep");
+            let will = RWill { qos: 0, retain: false, topic: b"w".to_vec(), payload: Vec::new(), props: vec![pair, (0x18, PV::U32(1)), (0x18, PV::U32(2))] };
+            let conn = RP::Connect { name: b"MQTT".to_vec(), level: 5, clean: true, keep_alive: 1, client_id: b"c".to_vec(), will: Some(will), username: None, password: None, props: Vec::new() };
+            c04_frame(c, fam, &ref_encode(fam, &conn, &Spelling::default()).bytes(), "prefix-sweep");
+        }
+    }
+    c.countn("prefix-sweep.fillers", (k / nw) as u64);
+}
+
 pub fn c04(ctx: &mut Ctx, layer: &str) {
     let n: usize = match layer {
         "miri" => if ctx.thorough { 10_000 } else { 600 },
@@ -757,6 +809,7 @@ pub fn c04(ctx: &mut Ctx, layer: &str) {
     let tiny = matches!(layer, "miri" | "vg");
     wl::par(ctx, |w, nw, c, r| {
         let mut mal = Vec::new();
+        c04_prefix_sweep(c, w, nw, layer);
         for fam in [Fam::V3, Fam::V5] {
             // exhaustive tiny frames: every control byte with bodies of 0 and 1 bytes, sampled 2-byte bodies
             if !tiny {
